@@ -151,11 +151,15 @@ pub const TOKB: &[&str] = &[
     "--- a/f\t1969-12-31 19:00:00 -05\n",
     "+++ b/f 1970-01-01 00:00:00 -\n",
     "+++ b/f\t1970-01-01 00:00:0\n",
+    "+++ \"b/x\\0401970-01-01 00:00:00\"\n",
+    "--- \"a/x\\0401970-01-01 00:00:00\"\n",
     "+++ \"/dev/null/.\"\n",
     "+++ /dev//null\n",
     "+++ b/f g\t2020-01-02 03:04:05 +0000\n",
     "+++ b/ f\t \n",
     "@@ -1 +1,0 @@\n",
+    "@@ -1 +0,0 @@\n",
+    "@@ -0,0 +1 @@\n",
     "@@ -1,1 +1,1 @@ \n",
     "@@@ -1 -1 +1 @@@\n",
     "Binary files a/f and b/f differ\n",
